@@ -69,6 +69,8 @@ func runC02(c *CaseCtx) {
 		run.Tx(rt, false)
 		if i%5 == 4 || i == ntx-1 {
 			reads("after-commit")
+			// the on-disk root-index record of every sealed segment decodes to what the running database holds for it
+			checkRootIdxFiles(c, run.DB, run.Dir, run.Class)
 		}
 		if r.Intn(15) == 0 {
 			if !run.Reopen() {
